@@ -20,6 +20,7 @@ const modulePath = "github.com/bufbuild/protocompile"
 type Loaded struct {
 	Prog *ssa.Program
 	Pkgs []*ssa.Package
+	GoPkgs []*packages.Package
 	DB   *ContractDB
 	LoadSeconds float64
 }
@@ -89,6 +90,11 @@ func loadAll(repo, verifDir string, want map[string]bool) (*Loaded, error) {
 			pkgSet[fc.Pkg] = true
 		}
 	}
+	for _, td := range db.Tables {
+		if hasProp(td.Props, want) {
+			pkgSet[td.Pkg] = true
+		}
+	}
 	var patterns []string
 	for p := range pkgSet {
 		patterns = append(patterns, p)
@@ -108,7 +114,7 @@ func loadAll(repo, verifDir string, want map[string]bool) (*Loaded, error) {
 	}
 	prog, spkgs := ssautil.AllPackages(pkgs, ssa.InstantiateGenerics|ssa.NaiveForm|ssa.GlobalDebug)
 	prog.Build()
-	return &Loaded{Prog: prog, Pkgs: spkgs, DB: db, LoadSeconds: time.Since(t0).Seconds()}, nil
+	return &Loaded{Prog: prog, Pkgs: spkgs, DB: db, LoadSeconds: time.Since(t0).Seconds(), GoPkgs: pkgs}, nil
 }
 
 func main() {
@@ -172,6 +178,15 @@ func runVerification(o RunOpts) (*RunResult, error) {
 	}
 	if ld.Prog != nil {
 		autoGuardSweep(ld, o.Props)
+	}
+	for _, td := range db.Tables {
+		if !hasProp(td.Props, o.Props) || ld.GoPkgs == nil {
+			continue
+		}
+		if o.FnRe != nil && !o.FnRe.MatchString("table "+td.Var) {
+			continue
+		}
+		rr.Results = append(rr.Results, VerifyTable(ld.GoPkgs, td))
 	}
 	for _, name := range db.Order {
 		fc := db.Funcs[name]
